@@ -107,6 +107,24 @@ def gen_reuse(rng, idx):
     return {"idx": idx, "svcs": svcs, "ops": ops, "seed": rng.randrange(1 << 30), "delays": [0] * 60, "draws": [rng.choice([20, 60, 120]) for _ in range(6)]}
 
 
+BAD_SERVER = "%s.local." % ("h" * 64)  # a 64-byte label: cannot be put on the wire (ServiceInfo does not validate host names)
+
+
+def gen_refused_update(rng, idx):
+    """an update whose records cannot be encoded (64-byte label in `server`) is attempted and refused (NamePartTooLongException, the
+    D28 repair); later the instance is closed / unregister-all is called while other services are registered: the refused info must not
+    have reached the registry (C08-w5-seed2: the goodbye of *every* service would raise in `packets()`)"""
+    svcs = [{"inst": "svc%d" % i, "type": rng.choice(TYPES), "server": ["hosta.local.", "hostb.local."][i], "v4": ["0a00000%d" % (1 + i)], "v6": [], "port": 80 + i,
+             "text": "", "host_ttl": 120, "other_ttl": 4500} for i in range(2)]
+    at = rng.choice([900, 1500, 2500]) + rng.randint(0, 30)
+    ops = [{"op": "register", "svc": 0, "at": 0}, {"op": "register", "svc": 1, "at": 0},
+           {"op": "update", "svc": 0, "at": at, "via": rng.choice(["copy", "copy", "same"]), "change": {"server": BAD_SERVER}, "refused": True}]
+    if rng.random() < 0.5:
+        ops.append({"op": "query", "at": at + rng.choice([5, 300]), "svc": 1, "kind": rng.choice(["ptr", "srv", "a"]), "delay": 0})
+    ops.append({"op": rng.choice(["close", "unregister_all", "unregister"]), "svc": rng.choice([0, 1]), "at": at + rng.choice([10, 400, 1500]), "via": "same"})
+    return {"idx": idx, "svcs": svcs, "ops": ops, "seed": rng.randrange(1 << 30), "delays": [0] * 60, "draws": [rng.choice([20, 60, 120]) for _ in range(6)]}
+
+
 def gen_scenario(rng, idx):
     sc = gen_scenario0(rng, idx)
     # a host with two interfaces (two sender transports): every broadcast leaves on both
@@ -125,6 +143,8 @@ def gen_scenario0(rng, idx):
         return gen_nsec(rng, idx)
     if r < 0.20:
         return gen_reuse(rng, idx)
+    if r < 0.23:
+        return gen_refused_update(rng, idx)
     nsvc = rng.choice([1, 1, 2, 2, 3])
     svcs = []
     for i in range(nsvc):
@@ -448,6 +468,19 @@ def run_scenario(sc):
                 elif k == "unregister":
                     await za.async_unregister_service(handle(op["svc"], op.get("via", "same")))
                 elif k == "update":
+                    if op.get("refused"):
+                        # an update the library must refuse (its records cannot be encoded): nothing of it may stay behind
+                        before = dict(cur[op["svc"]])
+                        cur[op["svc"]].update(op["change"])
+                        h = build(op["svc"])
+                        cur[op["svc"]] = before
+                        try:
+                            await za.async_update_service(h)
+                            errors.append((op["op"], "refused-update-accepted"))
+                        except Exception as ex:  # noqa: BLE001
+                            if type(ex).__name__ != "NamePartTooLongException":
+                                raise
+                        return
                     if op.get("change") and op.get("via") == "copy":
                         cur[op["svc"]].update(op["change"])
                         changed[op["svc"]] = True
@@ -475,7 +508,10 @@ def run_scenario(sc):
         obs["api_errors"] = errors
         obs["ev"] = tap.ev
         if not closed[0]:
-            await vsim.close_host(a)
+            try:
+                await vsim.close_host(a)
+            except Exception as ex:  # noqa: BLE001  (a close that raises is judged by the oracle, it must not stop the harness)
+                errors.append(("close", type(ex).__name__))
 
     sim.run(scenario_main)
     obs["errors"] = [repr(e.get("exception")) + " " + str(e.get("message")) for e in sim.errors]
@@ -858,7 +894,9 @@ def oracle(sc, obs, res, case):
                     break
     for op, exc in obs.get("api_errors", []):
         res.count("api-error:%s:%s" % (op, exc))
-        if exc not in EXPECTED_API_ERRORS:
+        if exc == "refused-update-accepted":
+            viol.append(("C08:unencodable-update-accepted", "async_update_service accepted an info whose records cannot be encoded (64-byte label in the host name)"))
+        elif exc not in EXPECTED_API_ERRORS:
             viol.append(("C08:api-call-raised", "%s raised %s" % (op, exc)))
     seen = set()
     for sig, what in viol:
